@@ -286,6 +286,7 @@ def jobs(tier, seed):
         "outline": ([F([O(1, [(2, ["e"])], tags=["o"]), S(1)], tags=["f"])], {"out_dom": D, "stop": "sym"}),
         "2feat-select": ([F([S(1), S(1)]), F([S(1)])], {"out_dom": {"*": [0, 1]}, "select": True}),
         "feature-cleanup": ([F([S(1)]), F([S(1)])], {"out_dom": {"*": [0, 1]}}),
+        "wip": ([F([S(2, tags=["wip"]), S(1)], bg=1)], {"out_dom": {"*": [0, 3]}, "undef": False}),
         "hook-skip": ([F([S(1), S(2), R([S(1)], bg=1)])], {"out_dom": {"*": [0, 1]}, "undef": False}),
     }
     if tier == "thorough":
